@@ -207,7 +207,7 @@ func TestVerifC16RealTransfer(t *testing.T) {
 	rec := kit.NewRec("C16", "real-transfer")
 	defer rec.Close()
 	rng := kit.Rand("c16real")
-	n := kit.Tier(2, 24)
+	n := kit.Tier(2, 100)
 	for i := 0; i < n; i++ {
 		transport := []string{"udp", "pipe"}[i%2]
 		total := []int{1, 70000, 300000, 1 << 20}[rng.Intn(4)]
@@ -282,7 +282,7 @@ func TestVerifC16RealCloseAfterData(t *testing.T) {
 	rec := kit.NewRec("C16", "real-close")
 	defer rec.Close()
 	rng := kit.Rand("c16realclose")
-	n := kit.Tier(3, 30)
+	n := kit.Tier(3, 60)
 	for i := 0; i < n; i++ {
 		transport := []string{"udp", "pipe"}[i%2]
 		k := 1 + rng.Intn(8)
